@@ -120,6 +120,39 @@ Theorem C05_drift_detected_annotation_lost : forall t s p l l' la,
   vmatch t l' None s = O_false.
 Proof. exact drift_detected_drop_thm. Qed.
 
+(* (d) two more defects of the same check's stream were repaired (58b6399,
+   34ca0d2): a last-applied annotation recorded for an EARLIER, differently
+   shaped target (a list or scalar where the target has a map, a map or scalar
+   where it has a list, anything but a list of maps at a compare-as-map key)
+   used to make the comparison raise on every pass.  Such a recorded value now
+   counts as absent: the look-up in the recorded document cannot fail, *)
+Theorem C05_last_applied_probe_total : forall la k, exists v, probe_la la k = LaVal v.
+Proof. exact probe_la_total. Qed.
+
+(* ... and drift is detected whatever kind of value was recorded where the
+   target has a map / a list (nested positions: by the same two lemmas at
+   every level of the recursion, and by the correspondence) *)
+Theorem C05_drift_detected_ill_shaped_last_applied : forall t s p l l' la la',
+  wf t = true -> vmatch t l la s = O_match -> deviates t s p l l' ->
+  (match t with
+   | JMap _ => forall m, la' <> JMap m
+   | JList _ => forall x, la' <> JList x
+   | _ => True
+   end) ->
+  vmatch t l' (Some la') s = O_false.
+Proof. exact drift_detected_ill_shaped_la. Qed.
+
+(* the reproducers of both repairs: mismatch reported / match kept, no exception *)
+Example C05_last_applied_shape_examples :
+  vmatch (JMap [("spec", JMap [("a", JInt 1)])]) (JMap [("spec", JMap [("a", JInt 2)])])
+         (Some (JMap [("spec", JList [JMap []])])) false = O_false /\
+  vmatch (JMap [("spec", JList [JInt 1; JInt 2])]) (JMap [("spec", JList [JInt 1; JInt 2])])
+         (Some (JMap [("spec", JMap [("0", JInt 1)])])) false = O_match /\
+  (forall la, In la [JStr "str"; JList [JInt 1]; JMap [("name", JStr "a")]; JList [JList [JStr "x"]]; JInt 5; JBool true] ->
+     vmatch wb_target (JMap [("m", JList [JMap [("name", JStr "a")]])]) (Some (JMap [("m", la)])) false = O_match /\
+     vmatch wb_target (JMap [("m", JList [JMap [("name", JStr "b")]])]) (Some (JMap [("m", la)])) false = O_false).
+Proof. exact la_shape_examples. Qed.
+
 Section Dispatch.
   (* "... a managing ResourceFunction performs exactly the action its update
      policy prescribes: one patch carrying the full target (patch), one delete
@@ -332,6 +365,8 @@ Print Assumptions C05_set_membership_tells_bool_from_int.
 Print Assumptions C05_as_map_retype_detected.
 Print Assumptions C05_as_map_retype_corrected.
 Print Assumptions C05_drift_detected_annotation_lost.
+Print Assumptions C05_last_applied_probe_total.
+Print Assumptions C05_drift_detected_ill_shaped_last_applied.
 Print Assumptions C05_dispatch.
 Print Assumptions C05_patch_payload.
 Print Assumptions C05_patch_payload_owner.
